@@ -158,6 +158,15 @@ def run_case(spec, ctx):
             try:
                 if be == "c":
                     if m.compile_errors:
+                        # charged to C07 only if the same model compiles without the hybrid scheme (otherwise it is C02's event)
+                        b0 = B.generate(be, ode, schemes=["explicit_euler", "generalized_rush_larsen"], delta=delta, **ru)
+                        m0 = B.open_module(be, b0.value, ref) if b0.ok else None
+                        base_bad = m0 is None or bool(m0.compile_errors)
+                        if m0 is not None:
+                            m0.close()
+                        if base_bad:
+                            cn["compile_errors_shared_with_the_module_without_hybrid"] = cn.get("compile_errors_shared_with_the_module_without_hybrid", 0) + 1
+                            continue
                         out["violations"].append({"kind": "compile_error", "detail": {"errors": m.compile_errors[0][1][:3], "stiff": given}})
                         continue
                     if not m.build(which=("asan",)):
